@@ -186,6 +186,26 @@ lazy_static! {
   static ref LUNAR_MONTH_CACHE: Mutex<HashMap<String, Vec<f64>>> = Mutex::new(HashMap::new());
 }
 
+/// Verification hook (feature `verif`): back to the state of a fresh process. Only
+/// meaningful while no other thread is inside the library.
+#[cfg(feature = "verif")]
+pub fn verif_reset() {
+  LUNAR_MONTH_CACHE.clear_poison();
+  LUNAR_MONTH_CACHE.lock().unwrap_or_else(|e| e.into_inner()).clear();
+  LUNAR_MONTH_CACHE.clear_poison();
+  EIGHT_CHAR_PROVIDER.clear_poison();
+}
+
+/// Verification hook (feature `verif`): sorted keys of the lunar month cache and the
+/// poison flags of the two mutexes of this module.
+#[cfg(feature = "verif")]
+pub fn verif_state() -> (Vec<String>, bool, bool) {
+  let cache_poisoned: bool = LUNAR_MONTH_CACHE.is_poisoned();
+  let mut keys: Vec<String> = LUNAR_MONTH_CACHE.lock().unwrap_or_else(|e| e.into_inner()).keys().map(|k| format!("{:?}", k)).collect();
+  keys.sort();
+  (keys, cache_poisoned, EIGHT_CHAR_PROVIDER.is_poisoned())
+}
+
 /// 农历月
 #[derive(Debug, Copy, Clone)]
 pub struct LunarMonth {
